@@ -13,9 +13,15 @@ translated conditions over `Int`; `len(strconv.Itoa(n))` is `GuardFns.itoaLen`
 -/
 import Iso8583.Gen.GuardsPrefix
 import Iso8583.Model.Prefix
+import Iso8583.Lemmas.GuardFns
 
 namespace Iso8583.GuardsPrefix
 open Iso8583 Iso8583.Gen.Guards Iso8583.GuardFns Pref
+
+/-- the meaning given to `len(strconv.Itoa(n))` in the translated conditions is the length of the
+model's own `strconv.Itoa` (`formatInt`, tied to the code by the correspondence channels) -/
+theorem itoaLen_is_model_itoa_length (n : Int) : itoaLen n = ((formatInt n).length : Int) :=
+  itoaLen_eq_formatInt_length n
 
 theorem cast_gt (a b : Nat) : ((a : Int) > (b : Int)) ↔ a > b := by omega
 theorem cast_lt (a b : Nat) : ((a : Int) < (b : Int)) ↔ a < b := by omega
